@@ -989,6 +989,17 @@ impl<'a> G<'a> {
             7 => format!("./././{}", name),
             8 => format!("sub/../{}", name),
             9 => String::new(), // include "";
+            10 if !dirs_of_j.is_empty() => {
+                // absolute paths whose lexical and file-system resolution differ (or not)
+                let d = self.r.pick(&dirs_of_j).clone();
+                match self.r.below(5) {
+                    0 => format!("{}/nonexistent/../{}", d, name), // ENOENT for the kernel
+                    1 => format!("{}/{}/", d, name),               // trailing slash on a file
+                    2 => format!("{}/./sub/../{}", d, name),       // fine: sub exists
+                    3 => format!("{}/{}/../{}", d, name, name),    // `..` after a regular file
+                    _ => format!("{}//{}", d, name),
+                }
+            }
             _ => name.clone(),
         };
         // spelling of the literal
